@@ -31,6 +31,10 @@ TECHNIQUE = "Lean 4 totality theorem (panic sites kept in the model, proved unre
 
 
 def project(c, r):
+    if c.cmd == "CMPPAR":
+        # outcome class of every source compiled alone + the verdict of the concurrent / at-thread-exit compilations
+        parts = r.split(" || ")
+        return " || ".join(x.split(" ")[0] for x in parts[:-1]) + " || " + " ".join(parts[-1].split(" ")[:2])
     return r.split(" ")[0]
 
 
@@ -156,6 +160,8 @@ def nontrivial(c, r):
 
 
 def oracle(c, impl_res):
+    if c.cmd == "CMPPAR":
+        return ("ORC", "C10 %s" % ("PANIC" if ("PANIC" in impl_res or "UNSTABLE" in impl_res or impl_res in ("ABORT", "HANG", "NOANSWER")) else "OK"))
     if c.cmd == "CMPX":
         return ("ORC", "C10 %s" % ("PANIC" if ("PANIC" in impl_res or impl_res in ("ABORT", "HANG", "NOANSWER")) else "OK"))
     return ("ORC", "C10 %s" % impl_res.split(" ")[0])
